@@ -41,12 +41,68 @@ def _norm_exit(code):
     return 1
 
 
+_SNAPSHOT = None
+
+
+def _mutable_state():
+    """Every module-level / class-level mutable container of the ssh_audit package and every mutable default
+    argument of its functions: the places where state can survive from one audit to the next inside a process."""
+    import types
+    seen = set()
+
+    def containers_of(ns, owner):
+        for attr, val in list(ns.items()):
+            if attr.startswith('__') and attr.endswith('__'):
+                continue
+            if isinstance(val, (dict, list, set)):
+                yield val
+            f = val.__func__ if isinstance(val, (staticmethod, classmethod)) else val
+            if isinstance(f, types.FunctionType):
+                for d in (f.__defaults__ or ()):
+                    if isinstance(d, (dict, list, set)):
+                        yield d
+                for d in (f.__kwdefaults__ or {}).values():
+                    if isinstance(d, (dict, list, set)):
+                        yield d
+            if isinstance(val, type) and getattr(val, '__module__', '').startswith('ssh_audit') and id(val) not in seen:
+                seen.add(id(val))
+                yield from containers_of(vars(val), val)
+    for name, mod in list(sys.modules.items()):
+        if name == 'ssh_audit' or name.startswith('ssh_audit.'):
+            if mod is not None:
+                yield from containers_of(vars(mod), mod)
+
+
 def fresh_process_state():
-    """What a new interpreter would start with: no per-thread rating tables."""
-    from ssh_audit.ssh2_kexdb import SSH2_KexDB
-    from ssh_audit.ssh1_kexdb import SSH1_KexDB
-    SSH2_KexDB.DB_PER_THREAD.clear()
-    SSH1_KexDB.DB_PER_THREAD.clear()
+    """What a new interpreter would start with.  The first call (made before anything has run in this process)
+    snapshots all mutable package state; every later call puts it back, so that caches, memo tables, mutable
+    default arguments and per-thread tables never carry over from one simulated process to the next."""
+    global _SNAPSHOT
+    import copy
+    import ssh_audit.ssh_audit  # noqa: F401  (imports the whole package)
+    if _SNAPSHOT is None:
+        _SNAPSHOT = []
+        ids = set()
+        for c in _mutable_state():
+            if id(c) not in ids:
+                ids.add(id(c))
+                _SNAPSHOT.append((c, copy.deepcopy(c)))
+        return
+    for c, snap in _SNAPSHOT:
+        if c != snap:
+            if isinstance(c, list):
+                c[:] = copy.deepcopy(snap)
+            else:
+                c.clear()
+                c.update(copy.deepcopy(snap))
+    # containers that did not exist at snapshot time (e.g. created lazily) are emptied
+    known = {id(c) for c, _ in _SNAPSHOT}
+    for c in _mutable_state():
+        if id(c) not in known and len(c) and not getattr(c, '_verif_keep', False):
+            try:
+                c.clear()
+            except Exception:
+                pass
 
 
 class _Watchdog:
